@@ -11,6 +11,7 @@ mod driver;
 mod framework;
 mod registry;
 mod scen_agg;
+mod scen_emf;
 mod scen_queue;
 mod scen_uow;
 
@@ -19,6 +20,9 @@ fn main() {
     std::panic::set_hook(Box::new(|info| {
         // simulated threads panic on purpose in some scenarios (caught per operation); keep
         // stderr quiet unless asked
+        if let Ok(mut g) = driver::LAST_PANIC.lock() {
+            *g = info.location().map(|l| format!("{}:{}", l.file(), l.line()));
+        }
         if std::env::var_os("VERIF_PANIC_VERBOSE").is_some() {
             eprintln!("panic: {info}");
         }
